@@ -86,6 +86,9 @@ def qItemLoop (c : WCif) (path : Path) (nm : Str) : Option Handle :=
 def qLoopCategory (c : WCif) (path : Path) (i : Nat) : Option (Option Str) := (lookupLoop c path i).map (·.category)
 def qLoopNames (c : WCif) (path : Path) (i : Nat) : Option (List Str) := (lookupLoop c path i).map (·.names)
 
+/-- a handler's own pass over the packets through a loop handle: the number of packets cif_loop_get_packets / next_packet deliver -/
+def qLoopPackets (c : WCif) (path : Path) (i : Nat) : Option Nat := (lookupLoop c path i).map (·.packets.length)
+
 -- ---- the walk ------------------------------------------------------------------------------------------------------------------
 
 /-- walker state: number of callbacks made so far and the log (event, handle passed), most recent first -/
